@@ -37,7 +37,7 @@ Record tcase := mkcase {
 
 (* ---- syntactic equality of instruction graphs ---- *)
 Definition scalar_eqb' := scalar_eqb.
-(* (placeholders of direct jumps -- ONop (Some _) -- never occur in mirrored forms: not equal to anything) *)
+(* placeholders of direct jumps are ONop (Some (OBranch target)); any other placeholder is not equal to anything *)
 Definition op_eqb (a b : operation) : bool :=
   match a, b with
   | OAssign d s, OAssign d' s' => scalar_eqb d d' && expr_eqb s s'
@@ -45,6 +45,7 @@ Definition op_eqb (a b : operation) : bool :=
   | OLoad d i, OLoad d' i' => scalar_eqb d d' && expr_eqb i i'
   | OBranch t, OBranch t' => expr_eqb t t'
   | ONop None, ONop None => true
+  | ONop (Some (OBranch t)), ONop (Some (OBranch t')) => expr_eqb t t'     (* the placeholder of a direct jump *)
   | _, _ => false
   end.
 Definition instr_eqb (a b : instruction) : bool :=
@@ -69,7 +70,7 @@ Definition succ_eqb (a b : Z * option expr) : bool := (fst a =? fst b) && optexp
 (* the whole tie for a mirrored (straight-line) form: same graph, and the only successor is the fall-through *)
 Definition syntactic_tie (m : mode) (addr len : Z) (i : instr) (g : cfg) (succ : list (Z * option expr)) : bool :=
   match mirror_instr m addr i with
-  | Some (Ok g') => cfg_eqb g' g && list_eqb succ_eqb succ [(addr + len, None)]
+  | Some (Ok g') => cfg_eqb g' g && list_eqb succ_eqb succ (mirror_succ m addr len i)
   | _ => false
   end.
 
@@ -152,7 +153,7 @@ Definition sample_code (c : tcase) (g : cfg) (succ : list (Z * option expr)) (sm
 
 Definition ck (c : tcase) : bool * bool :=
   (match tc_mirror c, tc_lift c with
-   | Some (Ok g'), LOk g succ => cfg_eqb g' g && list_eqb succ_eqb succ [(tc_addr c + tc_len c, None)]
+   | Some (Ok g'), LOk g succ => cfg_eqb g' g && list_eqb succ_eqb succ (mirror_succ (tc_mode c) (tc_addr c) (tc_len c) (tc_ins c))
    | Some (Err e), LErr e' => err_eqb e e'
    | Some Panic, LPanic => true
    | Some (Ok _), LErr _ | Some (Ok _), LPanic => true
